@@ -141,7 +141,7 @@ def expPart (sg : Int) (mant : Rat) : Str → FloatRes
     if c == 101 || c == 69 then
       let e := digitRun (signOf t).2 false []
       if e.1.isEmpty || !e.2.isEmpty then .bad
-      else if digitsVal e.1 > 400 then .special
+      else if digitsVal e.1 > 400 then (if mant == 0 || (signOf t).1 < 0 then .val 0 else .special)
       else .val (sg * mant * pow10 ((signOf t).1 * (digitsVal e.1 : Int)))
     else .bad
 
